@@ -11,9 +11,9 @@ from vlib.core import Leg, Result, exc_failure
 
 ID = 'C16'
 BUDGET = 2.0
-RULE = ('cases: for every rule of the current SQL_REGEX an alphabet of its literals and character-class representatives (+ newline and a non-member) is extracted with '
+RULE = ('cases: for every rule the default lexer applies (patterns of its compiled rules; the source table SQL_REGEX as fallback) an alphabet of its literals and character-class representatives (+ newline and a non-member) is extracted with '
         're._parser; candidates prefix + pump^n + suffix with pump enumerated over all strings of length <=3 over the rule alphabet (<=7 symbols), prefix in {empty, 4 '
-        'starters}, suffix in {empty, non-member}, total length ~60, and length ~2000 for pumps of length <=2; leg loops: for every repetition in every rule the prefix that carries a match attempt to that loop (witness of the pattern before it) + pump^n over one representative per minterm of the one-character elements of the rule restricted to the loop body (Latin blocks and members of every Unicode category incl. non-ASCII digits/letters/spaces; classes accepted by several body elements first), pump length <=3, n ~60 and 3000; plus Hypothesis-drawn pumps of length <=6 over the union '
+        'starters}, suffix in {empty, non-member}, total length ~60, and length ~2000 for pumps of length <=2; leg loops: for every repetition in every rule the prefix that carries a match attempt to that loop (witness of the pattern before it) + pump^n over one representative per minterm of the one-character elements of the rule restricted to the loop body (Latin blocks and members of every Unicode category incl. non-ASCII digits/letters/spaces; classes accepted by several body elements first), pump length <=3 (<=4 over alphabets of <=4 symbols) and whole loop iterations (witnesses of each alternative of the body, with and without optional parts) as pumps, n ~60 and 3000; plus Hypothesis-drawn pumps of length <=6 over the union '
         'alphabet and G1 fragments at lengths 60 and 3000. Each candidate is tokenized by the whole lexer under a CPU-time alarm; oracle: CPU time <= %.0f s (exponential '
         'ambiguity makes length-60 pumps take hours). non-trivial: the targeted rule matches at least two pump copies somewhere in the candidate; distinct by candidate string' % BUDGET)
 ASSUMPTIONS = ['the property\'s universal clause (no input at all, no ambiguity in any rule) is beyond generated search; decided is: no candidate of the stated shapes exceeds the budget',
@@ -24,7 +24,7 @@ _rx = {}
 
 def _compiled(i):
     if i not in _rx:
-        _rx[i] = re.compile(keywords.SQL_REGEX[i][0], re.IGNORECASE | re.UNICODE)
+        _rx[i] = re.compile(current_rules()[i][0], re.IGNORECASE | re.UNICODE)
     return _rx[i]
 
 
@@ -48,7 +48,7 @@ def check(case):
         res.fail('budget', 'rule%s' % case.get('rule', '?'), 'tokenizing %r x %d (+%r, %r) took %.2f s CPU' % (case['pump'], case['reps'], case['prefix'], case['suffix'], dt))
     nt = False
     ri = case.get('rule')
-    if ri is not None and ri < len(keywords.SQL_REGEX):
+    if ri is not None and ri < len(current_rules()):
         rx = _compiled(ri)
         two = len(case['pump']) * 2
         for pos in (0, len(case['prefix'])):
@@ -64,13 +64,13 @@ def check(case):
 
 
 def _enum(tier):
-    return regexpump.candidates(keywords.SQL_REGEX, tier)
+    return regexpump.candidates(current_rules(), tier)
 
 
 @st.composite
 def drawn(draw):
     union = []
-    for rx, _ in keywords.SQL_REGEX:
+    for rx, _ in current_rules():
         for c in regexpump.alphabet(rx):
             if c not in union:
                 union.append(c)
@@ -83,8 +83,20 @@ def drawn(draw):
     return {'rule': None, 'prefix': pre, 'pump': pump, 'reps': max(2, total // len(pump)), 'suffix': suf}
 
 
+def current_rules():
+    """the patterns the default lexer actually applies (its compiled rules), falling back to the source table"""
+    try:
+        lx = lexer.Lexer.get_default_instance()
+        rules = [(m.__self__.pattern, tt) for m, tt in lx._SQL_REGEX]
+        if rules:
+            return rules
+    except Exception:
+        pass
+    return list(keywords.SQL_REGEX)
+
+
 def _directed(tier):
-    return regexpump.directed(keywords.SQL_REGEX, tier)
+    return regexpump.directed(current_rules(), tier)
 
 
 LEGS = [Leg('loops', check=check, enumerate=_directed, cpu_limit=20),
